@@ -16,38 +16,81 @@ import (
 // Minimal chains: only what getProofInfo asks for. The embedded interfaces
 // stay nil, so any other call would panic and show up as a failure.
 
+// c32Faults is the fault plan shared by the three chain handles: the named
+// query fails (RPC error) the next time it is made, every other query is
+// answered.
+type c32Faults struct {
+	failing string
+	hit     bool
+	asked   []string
+}
+
+func (f *c32Faults) fails(query string) error {
+	if f == nil {
+		return nil
+	}
+	f.asked = append(f.asked, query)
+	if f.failing == query {
+		f.hit = true
+		return fmt.Errorf("%s query failed: connection reset", query)
+	}
+	return nil
+}
+
 type c32BitcoinChain struct {
 	bitcoin.Chain
+	faults        *c32Faults
 	latest        uint
 	confirmations uint
 }
 
-func (c *c32BitcoinChain) GetLatestBlockHeight() (uint, error) { return c.latest, nil }
+func (c *c32BitcoinChain) GetLatestBlockHeight() (uint, error) {
+	if err := c.faults.fails("height"); err != nil {
+		return 0, err
+	}
+	return c.latest, nil
+}
 
 func (c *c32BitcoinChain) GetTransactionConfirmations(bitcoin.Hash) (uint, error) {
+	if err := c.faults.fails("confirmations"); err != nil {
+		return 0, err
+	}
 	return c.confirmations, nil
 }
 
 type c32SpvChain struct {
 	Chain
+	faults *c32Faults
 	factor *big.Int
 }
 
 // The doubles hand out the SAME *big.Int objects on every call, as the
 // package's own local chain (and any caching chain handle) does.
 func (c *c32SpvChain) TxProofDifficultyFactor() (*big.Int, error) {
+	if err := c.faults.fails("factor"); err != nil {
+		return nil, err
+	}
 	return c.factor, nil
 }
 
 type c32RelayChain struct {
 	btcdiff.Chain
+	faults            *c32Faults
 	epoch             uint64
 	current, previous *big.Int
 }
 
-func (c *c32RelayChain) CurrentEpoch() (uint64, error) { return c.epoch, nil }
+func (c *c32RelayChain) CurrentEpoch() (uint64, error) {
+	if err := c.faults.fails("epoch"); err != nil {
+		return 0, err
+	}
+	return c.epoch, nil
+}
 
 func (c *c32RelayChain) GetCurrentAndPrevEpochDifficulty() (*big.Int, *big.Int, error) {
+	if err := c.faults.fails("difficulties"); err != nil {
+		return nil, nil, err
+	}
 	return c.current, c.previous, nil
 }
 
@@ -256,12 +299,38 @@ func TestVerif_C32_ProofInfo(t *testing.T) {
 			if call > 1 && rapid.IntRange(0, 2).Draw(t, "otherTransaction") > 0 {
 				c32GenPosition(t, &c)
 			}
-			btc := &c32BitcoinChain{latest: c.latest, confirmations: c.confirmations}
+			// fault plan of this call: in a quarter of the calls one of the
+			// five chain queries fails (biased to the difficulty query, which
+			// is only made for a proof that spans the two epochs)
+			faults := &c32Faults{}
+			if rapid.IntRange(0, 3).Draw(t, "withFault") == 3 {
+				faults.failing = rapid.SampledFrom([]string{"difficulties", "difficulties", "difficulties", "height", "confirmations", "factor", "epoch"}).Draw(t, "failingQuery")
+			}
+			btc := &c32BitcoinChain{faults: faults, latest: c.latest, confirmations: c.confirmations}
+			spvChain.faults, relay.faults = faults, faults
 
 			ok, accumulated, required, err := getProofInfo(bitcoin.Hash{byte(call)}, btc, spvChain, relay)
-			if err != nil {
-				t.Fatalf("getProofInfo failed: %v", err)
+			faultLabel := "fault:none"
+			if faults.failing != "" {
+				faultLabel = "fault:" + faults.failing + "/not-asked"
+				if faults.hit {
+					faultLabel = "fault:" + faults.failing + "/asked"
+				}
 			}
+			if err != nil {
+				if !faults.hit {
+					t.Fatalf("getProofInfo failed although every chain query was answered: %v", err)
+				}
+				// failing is always allowed; nothing is claimed about the values
+				faultClass, _ := c32Classify(c.start, c.factor, c.epoch)
+				st.Case(faultClass == c32Spanning && faults.failing == "difficulties",
+					fmt.Sprintf("call %d/%d latest=%d conf=%d relayEpoch=%d factor=%d prev=%s cur=%s fault=%s -> error", call, nCalls, c.latest, c.confirmations, c.epoch, c.factor, c.previous, c.current, faults.failing),
+					"class:"+faultClass.String(), faultLabel, "outcome:error", fmt.Sprintf("call:%d", call))
+				continue
+			}
+			// A result - also one returned although a query failed - is held
+			// against the model: a failed query may be answered with an error,
+			// never with a guessed classification or header count.
 			// the chain handles' values belong to the handles
 			if relay.previous.Cmp(c.previous) != 0 || relay.current.Cmp(c.current) != 0 || spvChain.factor.Cmp(new(big.Int).SetUint64(c.factor)) != 0 {
 				t.Fatalf("call %d changed the numbers held by the chain handles: previous difficulty %s (was %s), current %s (was %s), factor %s (was %d)",
@@ -355,7 +424,7 @@ func TestVerif_C32_ProofInfo(t *testing.T) {
 				spanningBefore++
 			}
 			st.Case(nt, fmt.Sprintf("%s -> %v/%d/%d", render, ok, accumulated, required),
-				"class:"+class.String(), "difficulty:"+relation, "required:"+delta, where, fmt.Sprintf("call:%d", call), history)
+				"class:"+class.String(), "difficulty:"+relation, "required:"+delta, where, fmt.Sprintf("call:%d", call), history, faultLabel, "outcome:result")
 		}
 	})
 }
